@@ -400,4 +400,72 @@ theorem empty_index_list_accepted (ds : Dataset) :
 
 end
 
+/-! ### non-vacuity: a concrete dataset (exact scalars, `none` plays NaN) -/
+
+/-- exact scalars for the examples -/
+instance exampleScalar : Scalar (Option Int) :=
+  ⟨some, none, fun a b => a.bind (fun x => b.map (x * ·)), fun a b => a.bind (fun x => b.map (x - ·))⟩
+
+/-- 3 samples; a 3-class label, an int16 scalar, a 2-label multi-label feature, a 1x2x1 tensor, a second scalar -/
+def exFeats : List Feature :=
+  [⟨"f0", .sclass, 1, 1, 1, 3⟩, ⟨"f1", .int16, 1, 1, 1, 0⟩, ⟨"f2", .mclass, 1, 1, 1, 2⟩, ⟨"f3", .float64, 1, 2, 1, 0⟩,
+   ⟨"f4", .int16, 1, 1, 1, 0⟩]
+
+def exWrites : List (Nat × Nat × List Int) :=
+  [(0, 0, [2]), (2, 0, [0]), (0, 1, [-5]), (1, 1, [7]), (1, 2, [1, 0]), (2, 3, [4, -4]), (1, 4, [3]), (2, 4, [2])]
+
+/-- the harness's `do_load`: `resize`, then one `set` per given value -/
+def exStorage : Option Storage :=
+  exWrites.foldlM (fun st w => st.set w.1 w.2.1 w.2.2) (resize 3 exFeats 9)
+
+def exGens : List (GKind × List Nat × List Nat) :=
+  [(.sclassId, [], []), (.scalarId, [1], []), (.mclassId, [], []), (.structId, [], []), (.product, [1, 4], [1, 4])]
+
+def exDataset : Option Dataset :=
+  exStorage.bind (fun st => exGens.foldlM (fun (ds : Dataset) k => ds.add k.1 k.2.1 k.2.2) ⟨st, []⟩)
+
+-- the hypotheses of the theorems hold for it (so the theorems say something about this dataset and its 2^… histories)
+example : ∃ ds, exDataset = some ds ∧ ds.WF ∧ ClassValuesOk ds.st ∧ ∀ f, ds.flag f = .none := by
+  have hst : ∃ st, exStorage = some st := by
+    have : exStorage.isSome = true := by decide
+    exact Option.isSome_iff_exists.1 this
+  obtain ⟨st, hst⟩ := hst
+  have hds : ∃ ds, exDataset = some ds := by
+    have : exDataset.isSome = true := by decide
+    exact Option.isSome_iff_exists.1 this
+  obtain ⟨ds, hds⟩ := hds
+  have h0 := resize_wf 3 exFeats 9 (by decide)
+  obtain ⟨hwf, hcls, _⟩ := sets_wf exWrites _ st h0 (classValuesOk_resize 3 exFeats 9) hst (by decide)
+  have hadd : exGens.foldlM (fun (ds : Dataset) k => ds.add k.1 k.2.1 k.2.2) ⟨st, []⟩ = some ds := by
+    simpa [exDataset, hst] using hds
+  obtain ⟨h1, h2, h3⟩ := adds_wf exGens ⟨st, []⟩ ds ⟨hwf, by simp⟩ (by simp) hadd
+  exact ⟨ds, hds, h1, by rw [h2]; exact hcls, flag_fresh ds h3⟩
+
+-- the two int16 scalars share the int16 pool (rows 0 and 1), the label and the hits share the uint8 pool (rows 0 and 1..2)
+example : (exStorage.map (·.ranges)) = some [(0, 1), (0, 1), (1, 3), (0, 2), (1, 2)] := by decide
+-- D: set values are read back, everything else is missing
+example : (exStorage.map (fun st => [st.stored 0 0, st.stored 0 1, st.stored 2 1, st.stored 3 2, st.stored 4 0])) =
+    some [some [2], none, some [1, 0], some [4, -4], none] := by decide
+-- bookkeeping: 7 features (label, scalar f1, hits, tensor, 3 products), 2 + 1 + 2 + 2 + 3 columns
+example : (exDataset.map (fun ds => (ds.features, ds.columns, ds.colMap))) =
+    some (7, 10, [0, 0, 1, 2, 2, 3, 3, 4, 5, 6]) := by decide
+-- the flattened view of samples [2, 0, 0] (a repetition): one-hot over 2 columns (class 2 = all −1), NaN for missing
+example : (exDataset.bind (fun ds => ds.flatten (α := Option Int) [2, 0, 0] none)) =
+    some [[some 1, some (-1), none, none, none, some 4, some (-4), none, none, some 4],
+          [some (-1), some (-1), some (-5), none, none, none, none, some 25, none, none],
+          [some (-1), some (-1), some (-5), none, none, none, none, some 25, none, none]] := by decide
+-- index 3 = samples() is rejected, -1 is rejected, the empty list is an empty view
+example : (exDataset.bind (fun ds => ds.flatten (α := Option Int) [3] none)) = none := by decide
+example : (exDataset.bind (fun ds => ds.flatten (α := Option Int) [0, -1] none)) = none := by decide
+example : (exDataset.bind (fun ds => ds.flatten (α := Option Int) [] none)) = some [] := by decide
+-- drop makes exactly that feature missing; shuffle reads it through the permutation; undrop restores
+example : (exDataset.bind (fun ds => ((ds.step (.drop 1)).select (α := Option Int) [0, 1, 2] 1 .scalar).map
+    (fun v => match v with | .scalar x => x | _ => []))) = some [none, none, none] := by decide
+example : (exDataset.bind (fun ds => ((ds.step (.shuffle 1 [2, 0, 1])).select (α := Option Int) [0, 1, 2] 1 .scalar).map
+    (fun v => match v with | .scalar x => x | _ => []))) = some [none, some (-5), some 7] := by decide
+example : (exDataset.bind (fun ds => ((ds.run [.drop 1, .shuffle 0 [1, 2, 0], .undrop]).select (α := Option Int)
+    [0, 1, 2] 1 .scalar).map (fun v => match v with | .scalar x => x | _ => []))) =
+    some [some (-5), some 7, none] := by decide
+
+
 end NanoVerif.Dataset
